@@ -19,6 +19,7 @@ TLoad == /\ ~ld /\ l <= Len(TraceLog)
          /\ phase' = "done" /\ ld' = TRUE /\ l' = l
 TCheck == /\ ld
           /\ LET e == TraceLog[l]  out == Impl IN out.rows = e.rows /\ out.scanned = SetOf(e.scanned)
+          /\ StatsSound   \* the statistics the (real or fake) lister attached bound the segments' content
           /\ ld' = FALSE /\ l' = l + 1 /\ UNCHANGED vars
           /\ TLCSet(7, IF TLCGet(7) < l THEN l ELSE TLCGet(7))
 TNext == TLoad \/ TCheck
